@@ -61,6 +61,10 @@ Record compressor := {
 
 Definition has (flags flag : Z) : bool := HeaderFlag_Contains flags flag.
 
+(* frame/decode.go DecodeHeader: opcode 0xFF (REVISE_REQUEST) is defined by the DSE versions only *)
+Definition dse_opcode_ok (version opcode : Z) : bool :=
+  negb ((opcode =? OpCodeDseRevise) && negb (ProtocolVersion_IsDse version)).
+
 Section FrameCodec.
   Variable mc : msg_codec.
   Variable comp : option compressor.
@@ -145,6 +149,7 @@ Section FrameCodec.
     opcode <- read_byte ;;
     len <- read_int ;;
     rguard (is_ok (CheckValidOpCode opcode)) ;;;
+    rguard (dse_opcode_ok version opcode) ;;;
     rguard (if isResponse then is_ok (CheckResponseOpCode opcode) else is_ok (CheckRequestOpCode opcode)) ;;;
     ret {| h_IsResponse := isResponse; h_Version := version; h_Flags := flags; h_StreamId := sid;
            h_OpCode := opcode; h_BodyLength := len |}.
